@@ -1,7 +1,7 @@
 """C15 Object lifecycle is leak- and crash-free, also when allocations fail."""
 import astq
 from rules import life
-from rules.C14 import rule_globals
+from rules.C14 import rule_globals, rule_globals_ast
 
 LEVEL = 'other'
 TECHNIQUE = 'structural exception-safety analysis on the resolved AST (try coverage of every allocation, thrown-type vs handler-type hierarchy, acquire/release pairing table with folded sizes and allocator identity, value-initialisation, null-guard shape)'
@@ -32,3 +32,4 @@ def run(ctx, R):
     life.rule_ctor(ctx, R, 'K2', ('randomx::JitCompilerA64',))
     life.rule_ctor(ctx, R, 'K3', ('randomx::JitCompilerRV64',))
     rule_globals(ctx, R)    # a failed request leaves no latch behind: the library keeps no mutable global state
+    rule_globals_ast(ctx, R)
